@@ -1124,6 +1124,8 @@ class Pair:
     def line(self):
         if self.kind == 'wrap':
             return wrap_line(self.img.field, self.sizes, self.allowed, self.expected)
+        if self.after_error == 'continue':
+            return req('inspk', self.img.fmt, self.img.field, sizes_field(self.sizes), 1 if self.trace else 0)
         return insp_line(self.img.fmt, self.img.field, self.sizes, self.trace)
 
 
